@@ -40,7 +40,7 @@ PORTABLE_DEFS = ["-DBLAKE3_NO_SSE2", "-DBLAKE3_NO_SSE41", "-DBLAKE3_NO_AVX2", "-
 
 CHECK_FLAGS = ["--pointer-check", "--bounds-check", "--pointer-overflow-check",
                "--signed-overflow-check", "--undefined-shift-check", "--div-by-zero-check",
-               "--object-bits", "12"]
+               "--object-bits", "12", "--slice-formula"]
 
 MIN_UNWIND = 10
 # CaDiCaL (built into this cbmc) is 5-20x faster than the default MiniSat on the memcpy-heavy units
@@ -382,6 +382,14 @@ def _commands(name, main_c, scratch, repo, trace=True, sanity=False):
     g1 = os.path.join(scratch, "h.goto")
     g2 = os.path.join(scratch, "h_dfcc.goto")
     cc = ["goto-cc", "-I" + os.path.join(CBMC_DIR, "stubs"), "-I" + os.path.join(repo, "c")] + defs + ["-o", g1, main_c, "--function", "harness"]
+    # pre-pass: the bodies of contract-replaced callees are not part of this unit's proof; removing
+    # them (and what only they reach) keeps DFCC from instrumenting e.g. the whole compression
+    # function in every unit (goto-instrument --apply-loop-contracts: 23 s -> 0.4 s)
+    g0 = os.path.join(scratch, "h_pre.goto")
+    pre = ["goto-instrument"]
+    for r in u["replace"]:
+        pre += ["--remove-function-body", r]
+    pre += ["--drop-unused-functions", g1, g0]
     gi = ["goto-instrument", "--dfcc", "harness"]
     if u["enforce"]:
         gi += ["--enforce-contract-rec" if u["rec"] else "--enforce-contract", u["func"]]
@@ -389,7 +397,7 @@ def _commands(name, main_c, scratch, repo, trace=True, sanity=False):
         gi += ["--replace-call-with-contract", r]
     if u["loops"]:
         gi += ["--apply-loop-contracts"]
-    gi += [g1, g2]
+    gi += [g0, g2]
     # MIN_UNWIND: the DFCC library iterates over the targets of a replaced callee's assigns
     # clause (at most 7 targets in contracts.h); its loops are covered by unwinding assertions too
     cb = ["cbmc", g2] + CHECK_FLAGS + ["--unwind", str(max(u["unwind"], MIN_UNWIND)), "--unwinding-assertions"]
@@ -398,7 +406,7 @@ def _commands(name, main_c, scratch, repo, trace=True, sanity=False):
     if trace:
         cb += ["--trace"]
     cb += ["--json-ui"]
-    return cc, gi, cb
+    return cc, pre, gi, cb
 
 
 def _parse_json(out):
@@ -449,12 +457,16 @@ def run_unit(name, tier="quick", keep=False, sanity=False):
             res["functions_trusted"].append(
                 "loop contracts of %s inserted from verif/cbmc/loop_contracts.txt (checked: base, step, "
                 "assigns, decreases)" % ", ".join(sorted({"%s#%d" % (fn, i) for _, fn, i in u["loops"]})))
-        cc, gi, cb = _commands(name, main_c, scratch, repo, sanity=sanity)
-        cmds = [cc, gi, cb]
+        cc, pre, gi, cb = _commands(name, main_c, scratch, repo, sanity=sanity)
+        cmds = [cc, pre, gi, cb]
         res["cmd"] = " && ".join(_fmt(c) for c in cmds)
         rc, out, err, _ = common.run(cc, timeout=120, mem_gb=u["mem_gb"])
         if rc != 0:
             res["undecided_reason"] = "goto-cc failed (rc %s): %s" % (rc, (err + out)[-600:])
+            return res
+        rc, out, err, _ = common.run(pre, timeout=120, mem_gb=u["mem_gb"])
+        if rc != 0:
+            res["undecided_reason"] = "goto-instrument pre-pass failed (rc %s): %s" % (rc, (out + err)[-800:])
             return res
         rc, out, err, _ = common.run(gi, timeout=min(600, u["timeout"]), mem_gb=u["mem_gb"])
         if rc != 0:
